@@ -323,6 +323,17 @@ def run_verus_unit(uid, cfg, tier='quick', quiet=True):
         elif missing:
             res['status'] = 'undecided'
             res['reason'] = 'vacuous contract: assert(false) verifies at %s' % missing
+    if tier == 'thorough' and res['status'] == 'pass':
+        hcmd = [c for c in cmd]
+        hcmd[hcmd.index('--rlimit') + 1] = str(rlimit / 2.0)
+        rc3, so3, se3, wall3, to3 = limited(hcmd, cfg.get('mem_gb', 8), cfg.get('timeout_s', 900), cwd=BUILD)
+        try:
+            js3 = json.loads(so3[so3.index('{'):]) if '{' in so3 else {}
+        except ValueError:
+            js3 = {}
+        errs3 = (js3.get('verification-results', {}) or {}).get('errors')
+        res['brittleness'] = {'rlimit': rlimit / 2.0, 'errors_beyond_canary': None if errs3 is None else max(0, errs3 - 1),
+                              'stable': errs3 == 1, 'wall_s': round(wall3, 1)}
     res['time_s'] = time.time() - t0
     return res
 
